@@ -51,6 +51,11 @@ func evalKnow(fi *FactInfo, p, s *ssa.BasicBlock, v ssa.Value, k knowMap, depth 
 	if r, ok := k[v]; ok && (r == 1 || r == -1) {
 		return r
 	}
+	if fi != nil {
+		if r, ok := k[fi.canon(v)]; ok && (r == 1 || r == -1) {
+			return r
+		}
+	}
 	switch x := v.(type) {
 	case *ssa.Const:
 		if x.IsNil() {
@@ -99,10 +104,11 @@ func evalKnow(fi *FactInfo, p, s *ssa.BasicBlock, v ssa.Value, k knowMap, depth 
 		} else {
 			fs = fi.At(p)
 		}
-		if fs[Fact{"nonnil", v, true}] || fs[Fact{"true", v, true}] {
+		cv := fi.canon(v)
+		if fs[Fact{"nonnil", cv, true}] || fs[Fact{"true", cv, true}] {
 			return 1
 		}
-		if fs[Fact{"nonnil", v, false}] || fs[Fact{"true", v, false}] {
+		if fs[Fact{"nonnil", cv, false}] || fs[Fact{"true", cv, false}] {
 			return -1
 		}
 		if isErrorType(v.Type()) {
@@ -143,12 +149,33 @@ func stepKnow(fi *FactInfo, p, s *ssa.BasicBlock, k knowMap) knowMap {
 		}
 		phis = append(phis, ph)
 	}
-	if len(phis) == 0 && len(k) == 0 {
+	// a test that is written twice (structurally identical pure conditions): remember its outcome
+	var dupCond ssa.Value
+	dupPol := false
+	if fi != nil && len(p.Instrs) > 0 {
+		if iff, ok := p.Instrs[len(p.Instrs)-1].(*ssa.If); ok && len(p.Succs) == 2 && p.Succs[0] != p.Succs[1] {
+			if r := fi.canon(iff.Cond); fi.dupRep[r] {
+				dupCond, dupPol = r, p.Succs[0] == s
+			}
+		}
+	}
+	if len(phis) == 0 && len(k) == 0 && dupCond == nil {
 		return k
 	}
 	nk := knowMap{}
+	backEdge := s.Dominates(p)
 	for v, r := range k {
+		if _, isPhi := v.(*ssa.Phi); !isPhi && backEdge {
+			continue // a new iteration recomputes it
+		}
 		nk[v] = r
+	}
+	if dupCond != nil && !backEdge {
+		if dupPol {
+			nk[dupCond] = 1
+		} else {
+			nk[dupCond] = -1
+		}
 	}
 	// all phis of s are assigned simultaneously from the values on the edge
 	vals := make([]int8, len(phis))
